@@ -172,7 +172,7 @@ func c15Run(t *testing.T, root string, N int, wl *iprange.IPRange, hist []c15Ev,
 func TestC15(t *testing.T) {
 	r := NewReporter(t)
 	defer r.Done()
-	r.Rule("Serve(FilterListener(LimitListener(listener, N), whitelist)) wired as in cmd/: N in {1,2,3} (and unlimited) x explicit-state breadth-first search over event histories {arrival inside / outside the whitelist, client i sends a request, client i closes} up to a depth with <= 4N live clients, deduplicated by the abstract state (per client: in/out, closed, requests sent, served, finished); invariants evaluated in every state + capacity-recovery probe from every state; plus whitelist spec x source address grid over 127.0.0.0/8 and ::1; distinct by abstract state")
+	r.Rule("Serve(FilterListener(LimitListener(listener, N), whitelist)) wired as in cmd/: N in {1,2,3} (and unlimited) x explicit-state breadth-first search over event histories {arrival inside / outside the whitelist, client i sends a request, client i closes} up to a depth with <= 4N live clients, deduplicated by the abstract state (per client: in/out, closed, requests sent, served, finished); invariants evaluated in every state + capacity-recovery probe from every state; every pattern of 4 arrivals whose connection Close reports an error; plus whitelist spec x source address grid over 127.0.0.0/8 and ::1; distinct by abstract state")
 	w := newWorld(t, "srv/root")
 	defer w.Cleanup()
 	w.File("a.txt", 10, 1)
@@ -301,6 +301,78 @@ func TestC15(t *testing.T) {
 			r.Violation("C15:slot-lost-on-close-error", why, map[string]any{"N": N})
 		} else {
 			r.Outcome("close-fault-recovers")
+		}
+	}
+	// a rejected or finished connection whose Close reports an error (ECONNRESET from close(2) on some systems) must
+	// neither stop the accept loop nor cost a slot: every pattern of <= 4 arrivals over {inside, inside with failing
+	// Close, outside, outside with failing Close}, each inside client served and leaving before the next arrival
+	kinds := []string{"in", "inx", "out", "outx"}
+	for _, N := range []int{1, 2} {
+		for pat := 0; pat < 4*4*4*4; pat++ {
+			if !r.Mine(200 + pat) {
+				continue
+			}
+			seq := []string{kinds[pat%4], kinds[pat/4%4], kinds[pat/16%4], kinds[pat/64%4]}
+			hasX := false
+			for _, k := range seq {
+				if k == "inx" || k == "outx" {
+					hasX = true
+				}
+			}
+			if !hasX {
+				continue
+			}
+			var why string
+			synctest.Test(t, func(t *testing.T) {
+				s := startSrv(SrvOpts{Root: w.Root, LnWrap: c15Wrap(N, wl)})
+				for k, kind := range append(append([]string{}, seq...), "in", "in") {
+					if why != "" {
+						break
+					}
+					ip := net.IPv4(127, 0, 0, 1)
+					if kind == "out" || kind == "outx" {
+						ip = net.IPv4(127, 0, 0, 9)
+					}
+					c := s.Dial(&net.TCPAddr{IP: ip, Port: 53000 + k})
+					if kind == "inx" || kind == "outx" {
+						c.closeErr = syscall.ECONNRESET
+					}
+					resp, closed := s.Exchange(c, mkReq(opStatFile, "/").Encode())
+					if kind == "out" || kind == "outx" {
+						if len(resp) != 0 || !closed {
+							why = sprintf("arrival %d (%s) of %v is outside the whitelist but got %d bytes, closed=%v", k, kind, seq, len(resp), closed)
+						}
+						continue
+					}
+					if len(resp) != szStat || closed {
+						why = sprintf("arrival %d (%s) of %v (limit %d) is inside the whitelist but was not served: %d bytes, closed=%v", k, kind, seq, N, len(resp), closed)
+						break
+					}
+					c.Fin()
+					synctest.Wait()
+					if !c.ServerClosed() {
+						why = sprintf("arrival %d (%s) of %v left but its connection was not closed", k, kind, seq)
+					}
+				}
+				s.Shutdown()
+				select {
+				case <-s.done:
+				default:
+					if why == "" {
+						why = sprintf("after %v the accept loop did not end when the listener was closed", seq)
+					}
+				}
+			})
+			r.Transition(6)
+			r.Eval(1)
+			key := sprintf("close-error N=%d %v", N, seq)
+			r.State(key)
+			r.Nontrivial(key)
+			if why != "" {
+				r.Violation("C15:close-error-stops-serving", why, map[string]any{"N": N, "arrivals": seq})
+			} else {
+				r.Outcome("close-error-tolerated")
+			}
 		}
 	}
 	// whitelist spec x source address grid
